@@ -1,18 +1,18 @@
-"""C05 -- scheduler core (work in progress: metadata filled in below)."""
+"""C10 -- scheduler core (work in progress: metadata filled in below)."""
 from props.common import contract_tasks, lemma_tasks, TRUSTED_CORE
 
-PROPERTY = "C05"
+PROPERTY = "C10"
 
 
 def tasks(tier):
-    return contract_tasks("contracts.scheduler", "C05", tier=tier) + contract_tasks("contracts.sim_process", "C05", tier=tier)
+    return contract_tasks("contracts.scheduler", "C10", tier=tier) + contract_tasks("contracts.sim_process", "C10", tier=tier)
 
 
 TRUSTED_BASE = TRUSTED_CORE
 ASSUMPTIONS = []
 NOT_COVERED = []
 LEVEL_TEXT = "wip"
-DESIGN_REF = "DESIGN.md section 8 (C05)"
+DESIGN_REF = "DESIGN.md section 8 (C10)"
 LEVEL_NOTE = "wip"
 TECHNIQUE = "contract-based deductive verification (AST->z3 VCs on the real functions, global invariant, rely/guarantee at awaits)"
 CLAIMED = False
